@@ -379,7 +379,10 @@ theorem scorePairs_sum {cv : WProfile} (hwf : BallotsWF cv) (c : Cand) :
     have hwf' : BallotsWF rest := fun x hx => hwf x (List.mem_cons_of_mem _ hx)
     rw [List.flatMap_cons, List.filter_append, List.map_append, List.sum_append, ih hwf',
       ballot_score_sum (hwf bw List.mem_cons_self)]
-    cases ballotScore bw.1 c <;> simp
+    simp only [List.map_cons, List.sum_cons]
+    congr 1
+    generalize ballotScore bw.1 c = o
+    cases o <;> rfl
 
 theorem sumScores_getD {cv : WProfile} (hwf : BallotsWF cv) (c : Cand) : getD (sumScores cv) c 0 = scoreSum cv c := by
   rw [sumScores_eq_accum, getD_accum, scorePairs_sum hwf]
